@@ -262,6 +262,8 @@ func Render(o Op) string {
 		return "UID STORE " + o.Arg + " -FLAGS (\\Deleted)"
 	case "expunge":
 		return "EXPUNGE"
+	case "uidexpunge":
+		return "UID EXPUNGE " + o.Arg
 	case "list":
 		return `LIST "" "*" RETURN (STATUS (MESSAGES UNSEEN))`
 	case "lsub":
@@ -296,7 +298,7 @@ var extra = []string{"X", "Y", "X/sub"}
 func GenProg(t *rapid.T, home string) []Op {
 	prog := []Op{{Kind: "select", Box: home}}
 	n := rapid.IntRange(2, 9).Draw(t, "nops")
-	kinds := []string{"copy", "copy", "move", "move", "uidcopy", "fetch", "fetch", "fetchseen", "store", "unstore", "expunge", "append", "append", "list", "lsub",
+	kinds := []string{"copy", "copy", "move", "move", "uidcopy", "fetch", "fetch", "fetchseen", "store", "unstore", "expunge", "uidexpunge", "append", "append", "list", "lsub",
 		"status", "create", "delete", "rename", "subscribe", "idle", "noop", "search", "uidsearch", "select", "close"}
 	selected := true
 	for i := 0; i < n; i++ {
@@ -314,7 +316,7 @@ func GenProg(t *rapid.T, home string) []Op {
 				continue
 			}
 			selected = false
-		case "copy", "move", "uidcopy", "fetch", "fetchseen", "store", "unstore", "expunge", "search", "uidsearch", "idle":
+		case "copy", "move", "uidcopy", "fetch", "fetchseen", "store", "unstore", "expunge", "uidexpunge", "search", "uidsearch", "idle":
 			if !selected {
 				prog = append(prog, Op{Kind: "select", Box: home})
 				selected = true
@@ -326,7 +328,7 @@ func GenProg(t *rapid.T, home string) []Op {
 }
 
 func GenTrial(t *rapid.T) Trial {
-	tr := Trial{Procs: rapid.SampledFrom([]int{2, 4, 8, 16}).Draw(t, "gomaxprocs"), Preload: rapid.SampledFrom([]int{3, 12, 40}).Draw(t, "preload")}
+	tr := Trial{Procs: rapid.SampledFrom([]int{2, 4, 8, 16}).Draw(t, "gomaxprocs"), Preload: rapid.SampledFrom([]int{0, 3, 12, 40}).Draw(t, "preload")}
 	n := rapid.IntRange(2, 8).Draw(t, "sessions")
 	for i := 0; i < n; i++ {
 		tr.Progs = append(tr.Progs, GenProg(t, Boxes[i%len(Boxes)]))
